@@ -176,11 +176,16 @@ def impl(case):
             out[name] = Err("Other", type(e).__name__)
     # the public getters, on a fresh object
     b = APK(raw, raw=True, skip_analysis=True)
-    for name in ("v2", "v3", "v31"):
-        try:
-            out["api"][name] = [[list(c) for c in getattr(b, "get_certificates_der_" + name)()], [list(k) for k in getattr(b, "get_public_keys_der_" + name)()]]
-        except Exception as e:
-            out["api"][name] = Err("Other", type(e).__name__)
+    def getters():
+        d = {}
+        for name in ("v2", "v3", "v31"):
+            try:
+                d[name] = [[list(c) for c in getattr(b, "get_certificates_der_" + name)()], [list(k) for k in getattr(b, "get_public_keys_der_" + name)()]]
+            except Exception as e:
+                d[name] = Err("Other", type(e).__name__)
+        return d
+    out["api"] = getters()
+    out["api_again_same"] = getters() == out["api"] and [bool(b.is_signed_v2()), bool(b.is_signed_v3()), bool(b.is_signed_v31())] == out["flags"][:3]
     return out
 
 
@@ -213,6 +218,8 @@ def oracle(case, res):
         return "the signing block was not found / not parsed: %s" % ({k: v for k, v in res.items() if k != "raw"},)
     ids = [i for i, _, _ in case[1]]
     want_flags = [V2 in ids, V3 in ids, V31 in ids, len(set(ids)) != len(ids)]
+    if not res.get("api_again_same", True):
+        return "asked a second time, the same APK object gives other certificates, public keys or presence flags"
     if res["flags"] != want_flags:
         return "presence flags (v2, v3, v3.1, duplicates) %s, the block holds the ids %s" % (res["flags"], [hex(i) for i in ids])
     for name, key, v3 in (("v2", V2, False), ("v3", V3, True), ("v31", V31, True)):
